@@ -30,6 +30,7 @@ type c05Case struct {
 	TgtSpin  int    `json:"targeter_spin_max"` // PRNG spin right after the critical section
 	RespSpin int    `json:"resp_spin_max"`
 	Seed     int64  `json:"seed"`
+	FailAt   int    `json:"targeter_fails_from_call,omitempty"` // >0: the targeter reports ErrNoTargets from this call on (the attack stops itself)
 }
 
 type c05Witness struct {
@@ -56,6 +57,9 @@ func runC05Case(run *ev.Run, cs c05Case) {
 	targets := defaultTargets()
 	tr := func(t *vegeta.Target) error {
 		n := tcalls.Add(1)
+		if cs.FailAt > 0 && int(n) >= cs.FailAt {
+			return vegeta.ErrNoTargets
+		}
 		if cs.TgtSpin > 0 {
 			k := int(uint64(n)*40503) % cs.TgtSpin
 			for i := 0; i < k; i++ {
@@ -110,7 +114,7 @@ func runC05Case(run *ev.Run, cs c05Case) {
 	}
 	arrival := append([]*vegeta.Result{}, got...)
 	sort.Slice(got, func(i, j int) bool { return got[i].Seq < got[j].Seq })
-	adjacentDiffer := 0
+	adjacentDiffer, failedDraws := 0, 0
 	for i, r := range got {
 		if uint64(i) != r.Seq {
 			viol("seq-not-contiguous", "free-running", fmt.Sprintf("position %d has seq %d", i, r.Seq), r, nil)
@@ -133,6 +137,20 @@ func runC05Case(run *ev.Run, cs c05Case) {
 			break
 		}
 		e, ok := entry[r.Seq]
+		if !ok && cs.FailAt > 0 && r.Error == vegeta.ErrNoTargets.Error() && r.Code == 0 {
+			// the hit whose targeter call failed: it has a place in the order and a start like any
+			// other result, only no request
+			failedDraws++
+			if r.Latency < 0 || ts+r.Latency > tEnd {
+				viol("latency-out-of-range", "targeter-failed", fmt.Sprintf("seq %d (targeter failed) has latency %v, timestamp %v; the attack ended at %v", r.Seq, r.Latency, ts, tEnd), r, nil)
+				break
+			}
+			if !r.End().Equal(r.Timestamp.Add(r.Latency)) {
+				viol("end-mismatch", "targeter-failed", fmt.Sprintf("seq %d End() != Timestamp+Latency", r.Seq), r, nil)
+				break
+			}
+			continue
+		}
 		if !ok {
 			viol("no-transport-entry", "free-running", fmt.Sprintf("seq %d never reached the transport", r.Seq), r, nil)
 			break
@@ -155,6 +173,10 @@ func runC05Case(run *ev.Run, cs c05Case) {
 		}
 	}
 	run.Count("adjacent_pairs_with_distinct_timestamps", int64(adjacentDiffer))
+	if cs.FailAt > 0 {
+		run.Count("attacks_ended_by_a_failing_targeter", 1)
+		run.Count("results_of_hits_whose_targeter_call_failed", int64(failedDraws))
+	}
 	// The plot consumer re-orders by Seq and requires non-decreasing time;
 	// results are fed in arrival (completion) order and in a shuffled order.
 	rng := rand.New(rand.NewSource(cs.Seed))
@@ -349,6 +371,12 @@ func runC05(c *Ctx) int {
 			logCase(string(b))
 			runC05Case(run, cs)
 		}
+		for i := 0; i < 2; i++ { // attacks that end because the targeter runs dry while many hits are in flight
+			cs := c05Case{Workers: ws[rng.Intn(len(ws)-1)], Hits: 20000, TgtSpin: []int{0, 64}[i], Seed: rng.Int63(), FailAt: 200 + rng.Intn(6000)}
+			b, _ := json.Marshal(cs)
+			logCase(string(b))
+			runC05Case(run, cs)
+		}
 		for i := 0; i < 4; i++ {
 			rc := c05RealCase{Workers: []uint64{1, 4, 8, 16}[rng.Intn(4)], MaxConns: []int{0, 1, 2}[rng.Intn(3)], Hits: 150,
 				HandlerUs: []int{0, 500, 2000}[rng.Intn(3)], Redirects: []int{0, 0, 2, 3}[rng.Intn(4)], KeepAlive: rng.Intn(3) != 0}
@@ -401,6 +429,7 @@ func runC05(c *Ctx) int {
 	c05CLI(c, run)
 	run.Floor("cli_attacks", int64(c.Pick(3, 14)))
 	run.Floor("attacks", int64(shards*per*9/10))
+	run.Floor("results_of_hits_whose_targeter_call_failed", int64(shards))
 	run.Floor("results", int64(shards*per*20000*9/10))
 	run.Floor("results_arriving_out_of_seq_order", 1000)
 	run.Floor("real_transport_hits_ok", int64(shards*2*150/2))
